@@ -4,8 +4,10 @@ package laws
 
 import (
 	"bytes"
+	"context"
 	"fmt"
 	"sort"
+	"time"
 
 	"github.com/PowerDNS/lmdb-go/lmdb"
 
@@ -14,8 +16,11 @@ import (
 	"github.com/PowerDNS/lightningstream/snapshot"
 	"github.com/PowerDNS/lightningstream/syncer"
 
+	"verif/bucket"
 	"verif/hdr"
+	"verif/inst"
 	"verif/lmdbx"
+	"verif/wire"
 	"verif/rng"
 	"verif/runner"
 )
@@ -402,6 +407,9 @@ func c02Cases(tier string, seed int64, extras []int, idPrefix string, foreign ..
 							cs = append(cs, runner.MkCase("laws", fmt.Sprintf("%s-s%d", name, sl), c02Params{Cfg: cfg, Part: "laws", Slice: sl, Slices: 5}))
 						}
 						cs = append(cs, runner.MkCase("update", name, c02Params{Cfg: cfg, Part: "update"}))
+						if cut == 0 && dts == 0 && ex == 0 {
+							cs = append(cs, runner.MkCase("loadonce", name, c02Params{Cfg: cfg, Part: "loadonce"}))
+						}
 					}
 				}
 			}
@@ -453,6 +461,8 @@ func runC02(c runner.Case, env *runner.Env) (res runner.Result) {
 		runUpdate(lc, p, env, &res)
 	case "random":
 		runRandom(lc, p, &res)
+	case "loadonce":
+		runLoadOnce(lc, p, env, &res)
 	}
 	if res.Sample == nil {
 		res.Sample = map[string]any{"case": c.ID, "cfg": p.Cfg, "merges": res.Obs["merges"], "ties_decided": res.Obs["ties_decided"]}
@@ -754,4 +764,95 @@ func runUpdate(lc *lawsChecker, p c02Params, env *runner.Env, res *runner.Result
 	run(all, "all", false)
 	run(losing, "losing", true)
 	res.NonTrivial = true
+}
+
+// runLoadOnce: the same pair domain through the real Syncer.LoadOnce of a native instance (sweeper off): the call
+// site must hand the merge routine no default timestamp, no cutoff and the configured padding - what LoadOnce
+// leaves per key must be what Merge decides for (stored, incoming).
+func runLoadOnce(lc *lawsChecker, p c02Params, env *runner.Env, res *runner.Result) {
+	cfg := p.Cfg
+	V := domainVersions()
+	b := bucket.New()
+	x, err := inst.New(env.Dir("c02lo"), b, "db", "a", inst.Opt{Native: true, Padding: cfg.Padding})
+	if err != nil {
+		res.Verdict, res.Msg = runner.Inconclusive, err.Error()
+		return
+	}
+	defer x.Close()
+	type pair struct {
+		key    string
+		stored []byte
+		in     Ver
+	}
+	var prs []pair
+	for si := -1; si < len(V); si++ {
+		for vi, v := range V {
+			pr := pair{key: fmt.Sprintf("k%03d-%03d", si+1, vi), in: v}
+			if si >= 0 {
+				pr.stored = storedBytes(effective(V[si], Cfg{Format: 3}), cfg, lc.r)
+			}
+			prs = append(prs, pr)
+		}
+	}
+	_, err = lmdbx.Update(x.Env, func(txn *lmdb.Txn) error {
+		for _, pr := range prs {
+			if pr.stored != nil {
+				if err := lmdbx.Put(txn, "d", 0, []byte(pr.key), pr.stored); err != nil {
+					return err
+				}
+			}
+		}
+		_, err := txn.OpenDBI("d", lmdb.Create)
+		return err
+	})
+	if err != nil {
+		res.Verdict, res.Msg = runner.Inconclusive, err.Error()
+		return
+	}
+	snap := &wire.Snap{FormatVersion: cfg.Format, CompatVersion: 1, Meta: wire.Meta{DatabaseName: "db", InstanceID: "r", GenerationID: "GX", TimestampNano: 1}}
+	d := wire.DBI{Name: "d"}
+	for _, pr := range prs {
+		kv := toKV(pr.in, cfg.Format)
+		d.Entries = append(d.Entries, wire.KV{Key: []byte(pr.key), Val: kv.Value, TS: kv.TimestampNano, Flags: kv.Flags})
+	}
+	snap.DBIs = []wire.DBI{d}
+	if _, _, err := x.LoadSnap(context.Background(), snap, "r", time.Now(), 0); err != nil {
+		res.Violate("loadonce-error", "LoadOnce failed on well-formed input: "+err.Error(), map[string]any{"cfg": cfg})
+		return
+	}
+	after, _, _ := lmdbx.DumpEnv(x.Env)
+	got := map[string][]byte{}
+	if dd := after["d"]; dd != nil {
+		for _, kv := range dd.KVs {
+			got[string(kv.K)] = kv.V
+		}
+	}
+	for _, pr := range prs {
+		exp, err := mergeReal(pr.stored, toKV(pr.in, cfg.Format), cfg)
+		if err != nil {
+			continue
+		}
+		g := got[pr.key]
+		res.Count("loadonce_keys_compared", 1)
+		if describe(g) != describe(exp) || (bytes.Equal(exp, pr.stored) && !bytes.Equal(g, pr.stored)) {
+			res.Violate("loadonce-differs-from-merge", fmt.Sprintf("key %s: stored %s incoming %v: LoadOnce left %s (untouched=%v), the merge routine decides %s (untouched=%v)", pr.key, describe(pr.stored), pr.in, describe(g), bytes.Equal(g, pr.stored), describe(exp), bytes.Equal(exp, pr.stored)), map[string]any{"cfg": cfg, "incoming": pr.in})
+		}
+		if g != nil && !bytes.Equal(g, pr.stored) {
+			h, _, _ := hdr.Read(g)
+			lc.checkWritten(withTxn(g, lsTxn), h, "loadonce "+pr.key, map[string]any{"cfg": cfg})
+		}
+	}
+	res.NonTrivial = true
+}
+
+// withTxn returns a copy of the stored value with the transaction id field replaced (the real transaction id is
+// checked elsewhere; checkWritten compares with the constant used for direct Merge calls).
+func withTxn(v []byte, txn uint64) []byte {
+	c := append([]byte{}, v...)
+	if len(c) >= 16 {
+		for i := 0; i < 8; i++ {
+			c[8+i] = byte(txn >> (8 * uint(7-i)))
+		}
+	}
+	return c
 }
